@@ -106,13 +106,14 @@ Theorem C06_interpolated_text_origin : forall name d,
   Forall (okfrag (fun s => s = sanitize name \/ In s (map snd d))) (render facts name d).
 Proof. exact (fun name d => render_ok facts _ d (fun f H => or_intror H) name (or_introl eq_refl)). Qed.
 
-(* a declared name can coincide with a global that the template's method bodies read: the field RECORD_VERSION is
-   accepted, becomes a parameter of __init__, and `__self._version = RECORD_VERSION` then reads the parameter *)
+(* a declared name can coincide with a global that the template's method bodies read: while the generated tail of
+   __init__ says `... = RECORD_VERSION`, the field RECORD_VERSION is accepted and becomes a parameter of __init__, so
+   that assignment reads the parameter *)
 Theorem C06_refuted_template_global_capture :
-  let d := [(s2n "string", s2n "RECORD_VERSION")] in
-  validators_pass facts (s2n "t/x") d
-  && existsb (frag_eqb (Dyn (s2n "RECORD_VERSION"))) (render_hole facts HArgs (s2n "t/x") d)
-  && existsb (frag_eqb (fx "__self._version = RECORD_VERSION")) (render_hole facts HInit (s2n "t/x") d) = true.
+  let d := [(s2n "varint", s2n "RECORD_VERSION")] in
+  implb (substrb (s2n "= RECORD_VERSION") (nf_init_tail facts))
+        (validators_pass facts (s2n "t/x") d
+         && existsb (frag_eqb (Dyn (s2n "RECORD_VERSION"))) (render_hole facts HArgs (s2n "t/x") d)) = true.
 Proof. vm_compute. reflexivity. Qed.
 
 (* non-vacuity *)
